@@ -241,6 +241,8 @@ func init() {
 			}},
 		// VwmaStrategy: the VWMA and the SMA periods are separate exported knobs; the library default is one period for both.
 		Pipe{Name: "strategy/trend.VwmaStrategy", Class: "strategy", Inputs: snapIn, Params: ps("vwma", "sma"),
+			// one period for both averages (NewVwmaStrategy sets both from DefaultVwmaStrategyPeriod; there is no With constructor)
+			Valid:   func(c []int) bool { return c[0] == c[1] },
 			Default: cfgOf(strend.DefaultVwmaStrategyPeriod, strend.DefaultVwmaStrategyPeriod),
 			Fields:  []string{"Close", "Volume"},
 			Make: func(cfg []int) Inst {
